@@ -40,6 +40,11 @@ pub struct Plan {
     pub long_gp: u64,
     #[serde(default)]
     pub long_extra: u64,
+    /// the syncer's own fork block at a fork-id checkpoint height (a multiple of 10) is re-created until its hash
+    /// shares the first byte, and only the first byte, with the peer's block of that height: the 2-byte slots of
+    /// the fork id must be compared whole
+    #[serde(default)]
+    pub near_collision: bool,
 }
 
 fn gen(seed: u64, tier: Tier) -> Plan {
@@ -66,6 +71,7 @@ fn gen(seed: u64, tier: Tier) -> Plan {
         loading_completed: rng.chance(1, 3),
         long_gp: if rng.chance(1, 8) { rng.range(3, 5) } else { 0 },
         long_extra: rng.range(1, 16),
+        near_collision: rng.chance(1, 8),
     }
 }
 
@@ -76,7 +82,7 @@ impl Scenario for C15 {
     fn meta(&self) -> Meta {
         Meta {
             level: "exploration",
-            rule: "run = two real full nodes (routing, verification, consensus processors; SimNet; fetch server reading the peer's simulated disk). Peer holds prefix+Y, syncer prefix+X with |Y| > |X| (prefix 0..35/120 so that 0, one or several fork-id checkpoints are populated; X empty, or 1..8/30 blocks). The syncer dials its static peer; real handshake; BlockchainRequest; header-hash stream; fetch batch size in {1,2,3,10}. Seeded scheduling of every pending message / channel item / fetch completion; faults: duplicated messages (5%), failed fetches (15%, retried by the timer path), one forced disconnect + reconnect; fetch completions either FIFO or in any order; in a third of the runs the syncer is configured with initial_loading_completed = true (park-and-retry of blocks whose parent is unknown instead of the orphan branch), where every completion order must converge. An eighth of the runs is the long-chain family: the peer's producer chain (genesis period 3..5) is 1..16 blocks longer than its block ring, it has purged its oldest blocks, and an empty syncer must join at the oldest block still served and reach the tip; with initial_loading_completed = true the syncer instead holds the chain up to genesis period + 2 blocks below the peer's tip and its fetches complete in any order (blocks more than a genesis period ahead of its tip take the whole-chain request path). Oracle: the set of header hashes the peer streams covers every block of Y after the true fork point; after faults stop, within 80 rounds of (run to quiescence, advance 2.1 s, tick routing timers) the syncer's tip equals the peer's tip; no processor panics. distinct_nontrivial = distinct (prefix, |X|, |Y|, fault set, schedule digest) that reached quiescence.",
+            rule: "run = two real full nodes (routing, verification, consensus processors; SimNet; fetch server reading the peer's simulated disk). Peer holds prefix+Y, syncer prefix+X with |Y| > |X| (prefix 0..35/120 so that 0, one or several fork-id checkpoints are populated; X empty, or 1..8/30 blocks; in an eighth of the runs the syncer's fork block at a fork-id checkpoint height is re-created until its hash shares exactly the first byte with the peer's block there). The syncer dials its static peer; real handshake; BlockchainRequest; header-hash stream; fetch batch size in {1,2,3,10}. Seeded scheduling of every pending message / channel item / fetch completion; faults: duplicated messages (5%), failed fetches (15%, retried by the timer path), one forced disconnect + reconnect; fetch completions either FIFO or in any order; in a third of the runs the syncer is configured with initial_loading_completed = true (park-and-retry of blocks whose parent is unknown instead of the orphan branch), where every completion order must converge. An eighth of the runs is the long-chain family: the peer's producer chain (genesis period 3..5) is 1..16 blocks longer than its block ring, it has purged its oldest blocks, and an empty syncer must join at the oldest block still served and reach the tip; with initial_loading_completed = true the syncer instead holds the chain up to genesis period + 2 blocks below the peer's tip and its fetches complete in any order (blocks more than a genesis period ahead of its tip take the whole-chain request path). Oracle: the set of header hashes the peer streams covers every block of Y after the true fork point; after faults stop, within 80 rounds of (run to quiescence, advance 2.1 s, tick routing timers) the syncer's tip equals the peer's tip; no processor panics. distinct_nontrivial = distinct (prefix, |X|, |Y|, fault set, schedule digest) that reached quiescence.",
             real: &["RoutingThread", "VerificationThread", "ConsensusThread", "Network/Peer handshake", "BlockchainSyncState", "Blockchain::generate_fork_id/generate_last_shared_ancestor/add_block", "Message codecs", "Storage"],
             stubs: &["SimNet (ordered per-connection queues)", "fetch server over the peer's SimDisk", "SimClock", "event-granularity scheduler instead of tokio (handlers run to completion)", "MiningThread idle"],
             assumptions: &["16-bit fork-id prefix collisions (2^-16 per checkpoint) are ignored", "out-of-order fetch completion that delivers a child before its parent is the orphan class (known finding of C03/C05) and is reported under its own signature"],
@@ -107,17 +113,29 @@ impl Scenario for C15 {
                 prefix.push(cur);
             }
             let fork = cur;
-            let mut x = vec![];
-            let mut c = fork;
-            for _ in 0..plan.x_suffix {
-                c = w.honest_child(c, &mut rng, 1, (w.recs[c].id + 1) % 2 == 0, 2400, "x")?;
-                x.push(c);
-            }
             let mut y = vec![];
             let mut c = fork;
             for _ in 0..plan.y_suffix {
                 c = w.honest_child(c, &mut rng, 1, (w.recs[c].id + 1) % 2 == 0, 2200, "y")?;
                 y.push(c);
+            }
+            let mut x = vec![];
+            let mut c = fork;
+            for k in 0..plan.x_suffix {
+                let id = w.recs[c].id + 1;
+                let mut next = w.honest_child(c, &mut rng, 1, id % 2 == 0, 2400, "x")?;
+                if plan.near_collision && id % 10 == 0 && k < y.len() {
+                    let want = w.recs[y[k]].hash;
+                    for t in 0..1500u64 {
+                        let h = w.recs[next].hash;
+                        if h[0] == want[0] && h[1] != want[1] {
+                            break;
+                        }
+                        next = w.honest_child(c, &mut rng, 1, id % 2 == 0, 2401 + t, "x-ground")?;
+                    }
+                }
+                c = next;
+                x.push(c);
             }
             Ok((prefix, x, y))
         });
@@ -128,6 +146,13 @@ impl Scenario for C15 {
                 return r;
             }
         };
+        if plan.near_collision {
+            for (k, xi) in x.iter().enumerate() {
+                if w.recs[*xi].id % 10 == 0 && k < y.len() && w.recs[*xi].hash[0] == w.recs[y[k]].hash[0] && w.recs[*xi].hash[1] != w.recs[y[k]].hash[1] {
+                    r.fault("fork_id_slot_shares_only_its_first_byte", 1);
+                }
+            }
+        }
         let start = w.recs.iter().map(|b| b.ts).max().unwrap() + 10_000;
         let mut sim = Sim::new(mix(plan.seed, 16), start);
         sim.log_deliveries = true;
